@@ -541,4 +541,61 @@ theorem blocks_chain_infix (off : Nat) (pre b post : List Tok) (h : Chain off (p
 theorem blocks_chain_head (off : Nat) (t : Tok) (r : List Tok) (h : Chain off (t :: r)) : Chain t.start (t :: r) :=
   ⟨rfl, h.2⟩
 
+theorem blocks_chain_bounds (off : Nat) (ts : List Tok) (h : Chain off ts) :
+    ∀ u ∈ ts, off ≤ u.start ∧ u.stop ≤ off + utf8Len (ts.flatMap (·.text)) := by
+  induction ts generalizing off with
+  | nil => intro u hu; cases hu
+  | cons t r ih =>
+    intro u hu
+    obtain ⟨h1, h2⟩ := h
+    simp only [List.flatMap_cons, utf8Len_append]
+    simp only [List.mem_cons] at hu
+    rcases hu with rfl | hu
+    · simp only [Tok.stop, h1]; omega
+    · have := ih _ h2 u hu
+      simp only [Tok.stop, h1] at this ⊢
+      omega
+
+/-! ### fuel-free recursion equations of the inner loops -/
+
+theorem blocks_skip_unfold (ts : List Tok) :
+    skipEmptyLines (ts.length + 1) ts = match pullLine ts with
+      | none => none
+      | some (li, rest) => if li.isEmpty then skipEmptyLines (rest.length + 1) rest else some (li, rest) := by
+  have hu : skipEmptyLines (ts.length + 1) ts = match pullLine ts with
+      | none => none
+      | some (li, rest) => if li.isEmpty then skipEmptyLines ts.length rest else some (li, rest) := rfl
+  rw [hu]
+  cases hp : pullLine ts with
+  | none => rfl
+  | some p =>
+    obtain ⟨li, rest⟩ := p
+    have := pullLine_shorter ts li rest hp
+    simp only
+    rw [blocks_skip_fuel ts.length (rest.length + 1) rest (by omega) (by omega)]
+
+theorem blocks_more_unfold (ts : List Tok) :
+    moreLines (ts.length + 1) ts =
+      if isSingleLineMarker ts.head? then ([], ts) else
+      match pullLine ts with
+      | none => ([], ts)
+      | some (li, rest) =>
+        if li.isEmpty then ([], rest) else
+        (li.toks ++ (moreLines (rest.length + 1) rest).1, (moreLines (rest.length + 1) rest).2) := by
+  have hu : moreLines (ts.length + 1) ts =
+      if isSingleLineMarker ts.head? then ([], ts) else
+      match pullLine ts with
+      | none => ([], ts)
+      | some (li, rest) =>
+        if li.isEmpty then ([], rest) else
+        (li.toks ++ (moreLines ts.length rest).1, (moreLines ts.length rest).2) := rfl
+  rw [hu]
+  cases hp : pullLine ts with
+  | none => rfl
+  | some p =>
+    obtain ⟨li, rest⟩ := p
+    have := pullLine_shorter ts li rest hp
+    simp only
+    rw [blocks_more_fuel ts.length (rest.length + 1) rest (by omega) (by omega)]
+
 end Cook
